@@ -4,7 +4,7 @@ from . import wl_roundtrip
 PROPERTY = "C11"
 LEVEL = "exploration"
 SCENARIOS = {"boundary": 3, "groups": 1}
-TIERS = {"quick": {"runs": 6000, "chunk": 40}, "thorough": {"runs": 200000, "chunk": 200}}
+TIERS = {"quick": {"runs": 6000, "chunk": 40}, "thorough": {"runs": 50000000, "wall_s": 600, "chunk": 200, "recheck": 16}}
 RULE = ("every frame handed to the simulated transport in the C12 workload (sizes biased "
         "so frames land at MAXSIZE-k..MAXSIZE+k and at 14/15/16 datagrams) is parsed by an "
         "independent EtherCAT parser and compared with what Packet.append was given and "
